@@ -120,3 +120,34 @@ Definition auto_candidates (sc : schema) (active : list nat) : list nat :=
     s_auto (sget sc s) && negb (mem s active)
     && negb (existsb (fun a => mem s (s_remove (sget sc a))) active))
     (all_states sc).
+
+(* DefaultRelationsResolver.NewSchema + graph.TopologicalSort: depth-first
+   post-order over the Require edges, starting from the states that have a
+   Require relation in the order [order] (Machine.New passes the state names
+   sorted alphabetically). A Require cycle leaves the topology empty. *)
+Fixpoint topo_visit (fuel : nat) (sc : schema) (node : nat) (temp : list nat)
+  (acc : list nat * list nat) : option (list nat * list nat) :=
+  match fuel with
+  | O => None
+  | S f =>
+    if mem node temp then None
+    else if mem node (fst acc) then Some acc
+    else
+      match fold_left (fun a nb => match a with
+                                   | None => None
+                                   | Some a' => topo_visit f sc nb (node :: temp) a'
+                                   end) (s_require (sget sc node)) (Some acc) with
+      | None => None
+      | Some (vis, stack) => Some (node :: vis, stack ++ [node])
+      end
+  end.
+
+Definition topo_sort (sc : schema) (order : list nat) : list nat :=
+  let starts := filter (fun n => match s_require (sget sc n) with [] => false | _ => true end) order in
+  match fold_left (fun a n => match a with
+                              | None => None
+                              | Some a' => topo_visit (S (length sc)) sc n [] a'
+                              end) starts (Some ([], [])) with
+  | None => []
+  | Some (_, stack) => stack
+  end.
